@@ -159,7 +159,9 @@ def lean_audit(pid, prop_modules, all_modules):
 
 # files whose `time.Now()` is redirected to the package's verifNow() (virtual clock); the copy is
 # regenerated from the CURRENT source on every build, so the checked program is derived from /repo
-INSTRUMENT_CLOCK = ["container/lru/expirable.go", "kvs/inmem/inmem.go", "kvs/redis/redis.go"]
+INSTRUMENT_CLOCK = ["container/lru/expirable.go", "kvs/inmem/inmem.go", "kvs/redis/redis.go", "timeout/timeout.go"]
+# files whose time.NewTimer is redirected to the package's verifNewTimer (harness-controlled timers)
+INSTRUMENT_TIMERS = ["timeout/timeout.go"]
 
 
 # files whose mutex-protected regions are announced to the harness: `X.lock.Lock()` is followed by
@@ -176,6 +178,10 @@ def instrument_text(rel, txt):
         txt = re.sub(r"time\.Until\(([^()]*(?:\([^()]*\))?[^()]*)\)", r"(\1).Sub(verifNow())", txt)
         txt = re.sub(r"time\.Since\(([^()]*(?:\([^()]*\))?[^()]*)\)", r"verifNow().Sub(\1)", txt)
         notes.append("%d clock read(s) redirected to verifNow()" % n)
+    if rel in INSTRUMENT_TIMERS:
+        n = txt.count("time.NewTimer(")
+        txt = txt.replace("time.NewTimer(", "verifNewTimer(")
+        notes.append("%d time.NewTimer call(s) redirected to verifNewTimer()" % n)
     if rel in INSTRUMENT_SECTIONS:
         out, k = [], 0
         fn, nlock = "?", 0
